@@ -1,32 +1,51 @@
 """A-BTCLIB: the part of python-bitcoinlib (bitcoin.core) that comm/bitcoin.py's input-clearing helper uses, as
 assumed contracts.  The library is ABSENT from this sandbox, so nothing here can be cross-checked against it.
 
-Abstraction: a transaction input is an integer handle; a script is its list of operations as the library's CScript
-iterator yields them, each operation coded as an integer (the literal 0 is the empty push OP_0).
-  CMutableTxIn.from_txin(t)   a fresh mutable copy whose scriptSig iterates to btc.ops(t); t itself is not changed
-  list(script)                the operation list
-  CScript(list)               a script that iterates back to that list"""
+Abstraction: a transaction input is an object with attributes prevout (an opaque outpoint, identified by an integer),
+scriptSig (a script) and nSequence (an integer); a script is its list of operations as the library's CScript iterator
+yields them, each operation coded as an integer (the literal 0 is the empty push OP_0).
+  CMutableTxIn.from_txin(t)            a fresh mutable copy with the same three attributes; t itself is not changed
+  CMutableTxIn(prevout, scriptSig, nSequence=0xffffffff)    the library's constructor and its default sequence number
+  list(script)                         the operation list
+  CScript(list)                        a script that iterates back to that list"""
 from pyvc import terms as tm
 from pyvc.terms import INT, BOOL, STR, BYTES
-from pyvc.values import Sym, Opaque, Raise, Unsupported, to_term, as_value, kind_of, is_sym, kind_sort
+from pyvc.values import Sym, Obj, Opaque, Raise, Unsupported, to_term, as_value, kind_of, is_sym, kind_sort
 from pyvc import libmodels as LM
 from pyvc import lib as L
 from pyvc import interp as I
-from pyvc.verify import native
-
-OPS = kind_sort(("list", "int"))
-btc_ops = tm.FunDecl("btc.scriptsig_ops", [INT], OPS)
+from pyvc.verify import native, OPAQUE, INT_, LIST
 
 MutableTxIn = LM.ext_class("bitcoin.core.CMutableTxIn")
+
+# the shape of a transaction input handed to the helper (contract parameter)
+TXIN = OPAQUE("txin", prevout=OPAQUE("outpoint", id=INT_), scriptSig=OPAQUE("cscript", ops=LIST(INT_)), nSequence=INT_)
+
+
+def _attrs(st, t):
+    if isinstance(t, Opaque) and t.tag == "txin":
+        return t.attrs
+    if isinstance(t, Obj) and t.cls is MutableTxIn:
+        return st.fields(t)
+    raise Unsupported("not a transaction input: %r" % (t,))
 
 
 @LM.register_external("bitcoin.core.CMutableTxIn.from_txin")
 def _from_txin(ip, st, args, kwargs):
     (t,) = args
-    if kind_of(t) != "int":
-        raise Unsupported("from_txin of a value that is not a transaction-input handle")
-    ops = btc_ops(to_term(t))
-    yield st, st.new_obj(MutableTxIn, {"scriptSig": Opaque("cscript", dict(ops=Sym(("list", "int"), ops))), "copy_of": t})
+    a = _attrs(st, t)
+    yield st, st.new_obj(MutableTxIn, {"prevout": a["prevout"], "scriptSig": a["scriptSig"], "nSequence": a["nSequence"]})
+
+
+def _new_txin(ip, st, cls, args, kwargs):
+    names = ["prevout", "scriptSig", "nSequence"]
+    a = dict(zip(names, args))
+    a.update(kwargs)
+    yield st, st.new_obj(MutableTxIn, {"prevout": a.get("prevout"), "scriptSig": a.get("scriptSig"),
+                                       "nSequence": a.get("nSequence", 0xffffffff)})
+
+
+LM.CLASS_HOOKS["bitcoin.core.CMutableTxIn"] = _new_txin
 
 
 @LM.register_external("bitcoin.core.CScript")
@@ -39,13 +58,14 @@ def _cscript(ip, st, args, kwargs):
 
 
 @native
-def input_ops(ip, st, t):
-    """operations of the script-sig of the transaction input t"""
-    return Sym(("list", "int"), btc_ops(to_term(t)))
-
-
-@native
 def script_ops(ip, st, s):
     if isinstance(s, Opaque) and s.tag == "cscript":
         return s.attrs["ops"]
     raise Unsupported("script_ops(%r)" % (s,))
+
+
+@native
+def same_outpoint(ip, st, a, b):
+    if isinstance(a, Opaque) and isinstance(b, Opaque) and a.tag == b.tag == "outpoint":
+        return L.eq_total(ip, st, a.attrs["id"], b.attrs["id"])
+    return False
